@@ -19,6 +19,10 @@ class Fn:
                         every `.callee(..)` call (extract.r21_* / r22_* / r23_*)
                         R24 = `if C { B }` without else -> `if C { B } else { }` (extract.r24_explicit_else; works around a Verus
                         mis-resolution of `&mut`-holding values moved in an else-less if)
+                        R31 = `CALL(..).inspect(|&x| {B})` by definition (Fn form: parenthesised block); R40 = `E.iter().fold(I, |acc, x| B)` ->
+                        accumulator loop; R41 = `.filter(|p| C).fold(..)` -> loop with `if`; R42 = `for x in E.iter().filter(|p| C) {B}` ->
+                        `for` + `if`; R43 = `CALL(..).map(|x| {B})` -> match (extract.r31_* / r40_* / r41_r42_* / r43_*; units fusedevw, asyncdevw);
+                        R23 `ghost_token['free_callees']`: token appended to free-function calls (extract.r23_ghost_token_free_calls)
     """
     rules = ()
 
